@@ -16,11 +16,14 @@ package broker
 //   liveness-session  a client silent since its last request t must be gone from the group
 //                     at t + S + cleanupInterval + 1ms, and if the group still exists its
 //                     generation must be higher than it was at t ("the group rebalances").
-//   liveness-rebalance a silent client that has not joined the current generation while the
-//                     group is in PreparingRebalance must be gone once
-//                     2 x max(RT of all clients) + cleanupInterval + 1ms have passed since the
-//                     harness last saw the generation change (the factor 2 leaves room for an
-//                     implementation that restarts the timeout when a member first re-joins).
+//   liveness-rebalance every cleanup tick is an observation point. The harness keeps an upper
+//                     bound D on the rebalance deadline: (instant at which it saw a rebalance
+//                     start / the generation change / a member join the current generation for
+//                     the first time) + max(RT of all clients). Polls of members that already
+//                     joined do not move D. At a tick T with D < T every member of the group
+//                     before the tick that had not joined the current generation (by the join
+//                     replies the harness received) must be gone right after the tick, whatever
+//                     else that cleanup pass did (e.g. also expiring a session).
 //   safety            a client whose consecutive requests are never further apart than
 //                     min(S, smallest RT) is a member at every observation, never gets
 //                     UNKNOWN_MEMBER_ID and never has its member id replaced by a join.
@@ -120,20 +123,22 @@ type c43Result struct {
 }
 
 type c43Sim struct {
-	c        *GroupCoordinator
-	ctx      context.Context
-	env      c43Env
-	opts     c43Opts
-	t0       time.Time
-	cl       []*c43Client
-	res      *c43Result
-	interval time.Duration
-	rtMax    time.Duration
-	rtMin    time.Duration
-	inc      int
-	existed  bool
-	lastGen  int32
-	bumpSeen time.Duration
+	c         *GroupCoordinator
+	ctx       context.Context
+	env       c43Env
+	opts      c43Opts
+	t0        time.Time
+	cl        []*c43Client
+	res       *c43Result
+	interval  time.Duration
+	rtMax     time.Duration
+	rtMin     time.Duration
+	inc       int
+	existed   bool
+	prev      c43WB         // white-box state at the previous observation
+	dUp       time.Duration // upper bound of the current rebalance deadline (0 = none)
+	nextTick  time.Duration
+	firstJoin bool // the request just sent was a member's first join of the generation
 }
 
 func c43Ms(n int) time.Duration { return time.Duration(n) * time.Millisecond }
@@ -174,23 +179,31 @@ func (s *c43Sim) peek() c43WB {
 	return w
 }
 
-// observe: incarnation / generation-change tracking plus the continuous assertions.
-func (s *c43Sim) observe() c43WB {
+// observe: incarnation tracking, rebalance-deadline bound and the continuous assertions.
+// tickAt >= 0 marks the observation that directly follows the cleanup tick at that instant.
+func (s *c43Sim) observe(tickAt time.Duration) c43WB {
 	w := s.peek()
 	now := s.now()
+	if tickAt >= 0 {
+		s.checkLaggers(w, tickAt)
+	}
+	first := s.firstJoin
+	s.firstJoin = false
+	switch {
+	case !w.exists || w.phase != groupStatePreparingRebalance:
+		s.dUp = 0
+	case !s.prev.exists || s.prev.phase != groupStatePreparingRebalance || s.prev.gen != w.gen || first:
+		s.dUp = now + s.rtMax
+	}
+	s.prev = w
 	if !w.exists {
 		if s.existed {
 			s.inc++
 		}
 		s.existed = false
-		s.lastGen = 0
 		return w
 	}
-	if !s.existed || w.gen != s.lastGen {
-		s.bumpSeen = now
-	}
 	s.existed = true
-	s.lastGen = w.gen
 	for _, c := range s.cl {
 		_, member := w.members[c.id]
 		switch c.st {
@@ -205,24 +218,67 @@ func (s *c43Sim) observe() c43WB {
 			if !member {
 				c.gone = true
 				s.res.classes[fmt.Sprintf("removed-after/%s", c43Bucket(now-c.lastReq, c43Ms(c.SessMs)))]++
-				continue
-			}
-			if w.phase == groupStatePreparingRebalance && c.gen != w.gen && s.inc == c.incAtLast {
-				if now-s.bumpSeen > 2*s.rtMax+s.interval+time.Millisecond {
-					sessionBoundPassed := now > c.lastReq+c43Ms(c.SessMs)+s.interval+time.Millisecond
-					if s.opts.excludeReb && !sessionBoundPassed {
-						if !c.exclCounted {
-							c.exclCounted = true
-							s.res.exclReb++
-						}
-						continue
-					}
-					s.violate("liveness-rebalance: client %d silent since %s has not joined generation %d; the generation changed %s ago (> 2 x max rebalance timeout %s + cleanup %s) and the group is still in PreparingRebalance with it as a member", c.idx, c.lastReq, w.gen, now-s.bumpSeen, s.rtMax, s.interval)
-				}
 			}
 		}
 	}
 	return w
+}
+
+func (s *c43Sim) clientByID(id string) *c43Client {
+	for _, c := range s.cl {
+		if c.id == id && id != "" {
+			return c
+		}
+	}
+	return nil
+}
+
+// checkLaggers runs right after the cleanup tick at instant T. s.prev / s.dUp still describe
+// the state before the tick.
+func (s *c43Sim) checkLaggers(w c43WB, T time.Duration) {
+	if !s.prev.exists || s.prev.phase != groupStatePreparingRebalance || s.dUp == 0 || s.dUp >= T {
+		return
+	}
+	s.res.classes["tick/rebalance-deadline-passed"]++
+	laggers, validLagger, freshLapse := 0, false, false
+	for id := range s.prev.members {
+		c := s.clientByID(id)
+		if c == nil {
+			continue
+		}
+		lapsed := T-c.lastReq > c43Ms(c.SessMs)
+		if lapsed && T-s.interval-c.lastReq <= c43Ms(c.SessMs) {
+			freshLapse = true
+		}
+		if c.gen == s.prev.gen {
+			continue
+		}
+		laggers++
+		if !lapsed {
+			validLagger = true
+		}
+		if _, still := w.members[id]; !still {
+			continue
+		}
+		if s.opts.excludeReb {
+			if !c.exclCounted {
+				c.exclCounted = true
+				s.res.exclReb++
+			}
+			continue
+		}
+		s.violate("liveness-rebalance: cleanup tick at %s: the rebalance of generation %d had its deadline no later than %s (last rebalance start / first-time join + max rebalance timeout %s), client %d (last request at %s, session %dms) never joined that generation but is still a member after the tick (generation now %d, phase %s)", T, s.prev.gen, s.dUp, s.rtMax, c.idx, c.lastReq, c.SessMs, w.gen, c43Phase(w.phase))
+	}
+	if laggers > 0 {
+		s.res.classes["tick/rebalance-deadline-passed/with-laggers"]++
+		s.res.feats["lagger-at-deadline"] = true
+	}
+	if validLagger && freshLapse {
+		// the coincidence: a session lapse first visible in the very cleanup pass that must
+		// also drop a rebalance laggard whose own session is still valid
+		s.res.classes["tick/deadline-and-session-expiry-coincide"]++
+		s.res.feats["deadline-expiry-coincidence"] = true
+	}
 }
 
 func c43Bucket(d, sess time.Duration) string {
@@ -248,6 +304,8 @@ func (s *c43Sim) join(c *c43Client) {
 	p.Name = "range"
 	p.Metadata = []byte{0, 0, 0, 0, 0, 1, 0, 2, 't', 'a', 0, 0, 0, 0}
 	req.Protocols = append(req.Protocols, p)
+	_, wasMember := s.prev.members[c.id]
+	s.firstJoin = c.id == "" || !wasMember || c.gen != s.prev.gen
 	resp, err := s.c.JoinGroup(s.ctx, req)
 	c.lastReq, c.lastRefReq = now, now
 	if err != nil || resp == nil {
@@ -437,6 +495,7 @@ func c43Simulate(t *testing.T, env c43Env, opts c43Opts) *c43Result {
 		store := metadata.NewInMemoryStore(metadata.ClusterMetadata{Brokers: []protocol.MetadataBroker{brk}, ControllerID: 1,
 			Topics: []protocol.MetadataTopic{{Topic: kmsg.StringPtr("ta"), Partitions: ps}}})
 		s := &c43Sim{ctx: context.Background(), env: env, opts: opts, res: res, t0: time.Now(), interval: c43Ms(env.CleanupMs)}
+		s.nextTick = s.interval
 		s.c = NewGroupCoordinator(store, brk, &CoordinatorConfig{CleanupInterval: s.interval})
 		defer s.c.Stop()
 		horizon := time.Duration(0)
@@ -504,15 +563,26 @@ func c43Simulate(t *testing.T, env c43Env, opts c43Opts) *c43Result {
 					}
 				}
 			}
-			if who == nil || at > horizon {
+			if kind == "" || at > horizon {
 				break
+			}
+			if tk := s.nextTick + 7*time.Microsecond; tk < at {
+				who, kind, at = nil, "tick", tk
 			}
 			if d := at - s.now(); d > 0 {
 				time.Sleep(d)
 			}
 			synctest.Wait()
 			res.events++
-			w := s.observe()
+			if kind == "tick" {
+				s.observe(s.nextTick)
+				s.nextTick += s.interval
+				if len(res.viol) > 0 || res.events > 30000 {
+					break
+				}
+				continue
+			}
+			w := s.observe(-1)
 			switch kind {
 			case "fate":
 				if who.Fate == c43FateDie {
@@ -536,8 +606,8 @@ func c43Simulate(t *testing.T, env c43Env, opts c43Opts) *c43Result {
 					s.heartbeat(who)
 				}
 			}
-			s.observe()
-			if len(res.viol) > 0 || res.events > 20000 {
+			s.observe(-1)
+			if len(res.viol) > 0 || res.events > 30000 {
 				break
 			}
 		}
@@ -545,7 +615,49 @@ func c43Simulate(t *testing.T, env c43Env, opts c43Opts) *c43Result {
 	return res
 }
 
+// c43DrawCoincidence draws the timeline family in which a session expiry and a passed
+// rebalance deadline tend to be seen by the same cleanup tick: members with mixed session
+// timeouts form a group; X (long session) and Y (session a little longer than the rebalance
+// timeout) go silent around the instant a late joiner N starts a rebalance; A (optional)
+// keeps running and re-joins quickly.
+func c43DrawCoincidence(t *rapid.T) c43Env {
+	env := c43Env{CleanupMs: rapid.SampledFrom([]int{5000, 5000, 3000, 2000}).Draw(t, "cleanup")}
+	rt := rapid.SampledFrom([]int{5000, 10000}).Draw(t, "reb")
+	tN := rapid.SampledFrom([]int{6000, 8000, 11000, 15000}).Draw(t, "tN") + rapid.IntRange(0, 999).Draw(t, "tNjit")
+	mk := func(sess, frac, start int) c43Spec {
+		base := sess
+		if rt-500 < base {
+			base = rt - 500
+		}
+		return c43Spec{SessMs: sess, RebMs: rt, HMs: base * frac / 100,
+			LatMs:   rapid.SampledFrom([]int{5, 20, 50, 100}).Draw(t, "lat"),
+			RetryMs: rapid.SampledFrom([]int{100, 200, 500, 1000}).Draw(t, "retry"),
+			StartMs: start}
+	}
+	dieAt := func() int {
+		d := tN - rapid.SampledFrom([]int{0, 200, 600, 1200, 2500}).Draw(t, "diebefore")
+		if rapid.IntRange(0, 4).Draw(t, "dieafter") == 0 {
+			d = tN + rapid.IntRange(1, 400).Draw(t, "dieafterms")
+		}
+		return d
+	}
+	if rapid.IntRange(0, 3).Draw(t, "withA") > 0 {
+		a := mk(rapid.SampledFrom([]int{10000, 30000}).Draw(t, "sessA"), rapid.SampledFrom([]int{10, 20, 33}).Draw(t, "fracA"), rapid.IntRange(0, 999).Draw(t, "startA"))
+		env.Clients = append(env.Clients, a)
+	}
+	x := mk(30000, rapid.SampledFrom([]int{10, 33, 70}).Draw(t, "fracX"), rapid.IntRange(0, 999).Draw(t, "startX"))
+	x.Fate, x.FateMs = c43FateDie, dieAt()
+	y := mk(rt+rapid.SampledFrom([]int{500, 1000, 2000, 3000, 4000}).Draw(t, "sessYextra"), rapid.SampledFrom([]int{10, 33, 70}).Draw(t, "fracY"), rapid.IntRange(0, 999).Draw(t, "startY"))
+	y.Fate, y.FateMs = c43FateDie, dieAt()
+	n := mk(rapid.SampledFrom([]int{10000, 30000}).Draw(t, "sessN"), 33, tN)
+	env.Clients = append(env.Clients, x, y, n)
+	return env
+}
+
 func c43DrawEnv(t *rapid.T, clampHB bool, excluded *int) c43Env {
+	if rapid.IntRange(0, 9).Draw(t, "family") < 4 {
+		return c43DrawCoincidence(t)
+	}
 	env := c43Env{CleanupMs: rapid.SampledFrom([]int{1000, 2000, 3000, 5000}).Draw(t, "cleanup")}
 	n := rapid.IntRange(1, 4).Draw(t, "clients")
 	rebs := make([]int, n)
